@@ -20,6 +20,7 @@ RULE = (
     "bit-identical with tsamp/tstart/dm preserved. Non-trivial = in-memory dtype differs from the on-disk type, or a "
     "sub-byte depth, or a series of length >= 2"
 )
+SCALE_LANE = 'one cwrite of 2**20 + 12 350 elements per (depth, in-memory dtype), alone and followed by a 5-sample write; series of 99 999 .. 1 234 567 samples (thorough 16 777 217) through .tim/.dat/.spec/.fft'
 ASSUMPTIONS = [
     "only values representable at the output depth are written (the statement covers nothing else)",
     "textual .inf metadata compared to 1e-12 relative (tsamp, dm) and 1e-10 d (tstart)",
